@@ -57,6 +57,10 @@ def run(ctx):
         # model-checked against the contract incl. termination on every 1-operator graph x request
         ctx.tlc_mc("graph/PlannerImpl", "graph/PlannerImpl1.cfg", workers=8, timeout=3000, heap="12g",
                    label="transcription of create_plan/visit/sort_plan satisfies the Planner contract and terminates")
+        # ... and on every 2-operator graph over 3 values of the plain family (no absent operands, no captures):
+        # 12 402 graphs x 144 requests, ~9.5M states
+        ctx.tlc_mc("graph/PlannerImpl", "graph/PlannerImpl2.cfg", workers=8, timeout=5400, heap="24g",
+                   label="transcription satisfies the contract and terminates on every plain 2-operator graph")
     judge(ctx, traces)
 
 
